@@ -157,6 +157,9 @@ pub struct World {
     pub counts: BTreeMap<String, u64>,
     /// set when a persistent savepoint was created in a transaction that aborted: ids are burnt
     pub next_seq: u64,
+    pub sync_obs: BTreeMap<String, u64>,
+    pub sync_errors: Vec<String>,
+    pub be_violations: Vec<String>,
 }
 
 pub fn key_u64(i: u64) -> Vec<u8> {
@@ -364,9 +367,27 @@ impl World {
             trace: None,
             counts: BTreeMap::new(),
             next_seq: 0,
+            sync_obs: BTreeMap::new(),
+            sync_errors: vec![],
+            be_violations: vec![],
         };
         w.push_commit(true, 0, 0, "create");
         Ok(w)
+    }
+
+    /// Collect what the backend's monitors observed so far
+    pub fn harvest(&mut self) {
+        let mut st = self.be.lock();
+        for (k, v) in std::mem::take(&mut st.sync_obs) {
+            let e = self.sync_obs.entry(k.clone()).or_insert(0);
+            if k.starts_with("max.") {
+                *e = (*e).max(v);
+            } else {
+                *e += v;
+            }
+        }
+        self.sync_errors.append(&mut st.sync_errors);
+        self.be_violations.append(&mut st.violations);
     }
 
     pub fn bump(&mut self, k: &str) {
@@ -1150,11 +1171,11 @@ impl World {
         let db = self.db.take();
         drop(db);
         self.mark_all_durable();
+        self.harvest();
         let img = self.be.image();
-        let viol = self.be.take_violations();
         let counts_close = self.be.close_count();
-        if !viol.is_empty() {
-            return oracle(format!("backend contract: {}", viol.join("; ")));
+        if !self.be_violations.is_empty() {
+            return oracle(format!("backend contract: {}", self.be_violations.join("; ")));
         }
         ensure!(counts_close == 1, "backend close() called {counts_close} times on drop");
         // a fresh backend object over the same bytes (the old one is closed)
@@ -1167,6 +1188,9 @@ impl World {
             new.log = old.log.clone();
             new.marks = old.marks.clone();
             new.protect = old.protect.clone();
+            new.sync_hook = old.sync_hook.clone();
+            new.protected = old.protected.clone();
+            new.protected_max = old.protected_max;
         }
         self.be = be;
         let db = self
@@ -1189,6 +1213,7 @@ impl World {
         self.readers.clear();
         self.esp.clear();
         self.db = None;
+        self.harvest();
     }
 
     /// check_integrity on a healthy database: must be Ok(true) and change nothing.
